@@ -132,6 +132,21 @@ LampBytes(pl, awl, rsl, mil) ==
 Dm22Bytes(ctl, spn, fmi) ==
     << ctl, 255, 255, 255, 255, spn % 256, (spn \div 256) % 256, ((spn \div 65536) % 8) * 32 + (fmi % 32) >>
 
+
+(************************** J1939-73 memory access (DM14 / DM15 / DM16) ****)
+\* DM14: byte 1 number of objects (low 8 bits); byte 2: bit 5 pointer type (direct), bits 2-4 command, bit 1 reserved = 1;
+\*       bytes 3-6 pointer + pointer extension (LSB first); bytes 7-8 key / user level (LSB first)
+CMD_ERASE == 0  CMD_READ == 1  CMD_WRITE == 2  CMD_STATUS == 3  CMD_COMPLETED == 4  CMD_FAILED == 5
+ST_PROCEED == 0  ST_BUSY == 1  ST_COMPLETED == 4  ST_FAILED == 5
+Dm14Dec(d) == [count |-> d[1], direct |-> (d[2] \div 16) % 2, cmd |-> (d[2] \div 2) % 8, ptr |-> SubSeq(d, 3, 6), kf |-> d[7] + 256 * d[8]]
+\* DM15: byte 1 number allowed; byte 2: bit 5 pointer type echo, bits 2-4 status, bit 1 = 1; bytes 3-5 error indicator / EDC
+\*       parameter (LSB first); byte 6 EDCP extension; bytes 7-8 seed (LSB first)
+Dm15Dec(d) == [count |-> d[1], direct |-> (d[2] \div 16) % 2, status |-> (d[2] \div 2) % 8, err |-> Rd3(d, 3), edcp |-> d[6], seed |-> d[7] + 256 * d[8]]
+\* DM16: byte 1 number of occurrences of raw binary data (255 if more than 7 follow), then the data (padded with 0xFF to 8 bytes)
+Dm16Data(d) == LET n == Min2(d[1], Len(d) - 1) IN SubSeq(d, 2, n + 1)
+Dm16Bytes(data) == <<IF Len(data) > 7 THEN 255 ELSE Len(data)>> \o data \o [j \in 1..(7 - Len(data)) |-> 255]
+PGN_DM14 == 55552   PGN_DM15 == 55296   PGN_DM16 == 55040
+
 (************************** request (PGN 59904) ****************************)
 ReqBytes(pgn) == Pgn3(pgn)
 
